@@ -30,6 +30,28 @@ def truth_count(Q, method, cache):
     raise ValueError(method)
 
 
+def served_in_this_visit(nd, ind):
+    return any(r.node == nd.id_number and r.arrival_date == ind.arrival_date and r.record_type == "interrupted service" for r in ind.data_records)
+
+
+def truth_pending(nd):
+    """Events the node owes its customers, read off the customers themselves (not off the node's own event table): the end of every
+    live, unblocked service; the renege of every customer that has never been served in this visit and still waits at a node with
+    finitely many servers; the class change of every such customer."""
+    out = []
+    finite = not O.isinf(nd.c)
+    for ind in O.customers(nd):
+        if O.live(nd, ind):
+            if not ind.is_blocked and ind.service_end_date is not False:
+                out.append((ind.service_end_date, "end_service", ind.id_number))
+        elif not served_in_this_visit(nd, ind) and not ind.is_blocked:
+            if finite and getattr(nd, "reneging", False) and ind.reneging_date is not False and not O.isinf(ind.reneging_date):
+                out.append((ind.reneging_date, "renege", ind.id_number))
+            if getattr(nd, "class_change_time", False) and ind.class_change_date is not False and not O.isinf(ind.class_change_date):
+                out.append((ind.class_change_date, "class_change", ind.id_number))
+    return out
+
+
 class Horizon(O.Monitor):
     name = "horizon"
     P = "C14"
@@ -66,6 +88,14 @@ class Horizon(O.Monitor):
             if nd.next_event_date != saved and saved == saved:
                 Q.report(self.P, "C14.every-pending-event-is-scheduled", etype, {"node": nd.id_number, "stored": O._num(saved),
                                                                                 "recomputed": O._num(nd.next_event_date), "event": nd.next_event_type})
+            # ... and that it has not forgotten one of its customers: the earliest event owed to a customer is not before the node's next event
+            owed = truth_pending(nd)
+            if owed:
+                d = min(owed, key=lambda x: x[0])
+                if d[0] < nd.next_event_date:
+                    Q.report(self.P, "C14.every-pending-event-is-scheduled", etype, {"node": nd.id_number, "owed": [O._num(d[0]), d[1], d[2]],
+                                                                                    "node_next_event": O._num(nd.next_event_date)})
+                self.activity["owed_" + d[1]] = self.activity.get("owed_" + d[1], 0) + 1
         st = Q.cur_step
         if st[0] == "max_customers":
             self.counts.append(truth_count(Q, st[2], self.cache))
